@@ -91,7 +91,7 @@ Qed.
 
 Lemma limiter_layer_eqv pos inst mw inner inner' : layer_eqv inner inner' -> layer_eqv (limiter_layer pos inst mw inner) (limiter_layer pos inst mw inner').
 Proof.
-  intros H c w. unfold limiter_layer.
+  intros H c w. unfold limiter_layer, limiter_layer_gen.
   destruct (nth inst (w_limiters w) _) as [[cfg base] s]. destruct (lim_acquire cfg s (w_now w - base) 1 mw) as [wt s'].
   destruct (wt =? -1); [split; [apply same_core_refl|reflexivity]|].
   match goal with |- context [wait ?ww ?d ?i] => destruct (wait ww d i) as [ii w2] end.
